@@ -21,7 +21,7 @@ pub struct FrameSpec {
     pub id: i32,
     /// bit 2*slot = leader of slot present, bit 2*slot+1 = follower present
     pub present: u8,
-    pub items: u8,
+    pub items: u16,
     pub pseed: u64,
 }
 
@@ -237,6 +237,9 @@ pub struct ArchiveEdit {
     pub name: String,
     pub size: u32,
     pub pseed: u64,
+    /// tar type flag: 0 (default) regular file, b'5' directory, b'2' symlink, b'1' hard link, b'6' fifo
+    #[serde(default)]
+    pub typeflag: u8,
 }
 
 #[derive(Serialize, Deserialize, Clone, Debug, PartialEq)]
@@ -269,6 +272,10 @@ pub struct ScenarioSpec {
     /// property-specific integer knobs (documented where used)
     #[serde(default)]
     pub knobs: BTreeMap<String, i64>,
+    /// configuration of the embedding application: 0 = no logger, 1 = Info, 2 = Debug, 3 = Trace
+    /// (log macros only evaluate their arguments when the level is enabled)
+    #[serde(default)]
+    pub log_level: u8,
 }
 
 impl ScenarioSpec {
